@@ -367,6 +367,94 @@ def check_moment(case):
     return tags
 
 
+def check_multi_column_renaming(case):
+    """Several sensitive columns with long cells containing the separator ',' and the escape character: renaming
+    every column's labels by a bijection onto short plain labels only renames the groups - the number of groups, the
+    gamma values of a parity moment, the number of ThresholdOptimizer rules and its attained objective are unchanged."""
+    import fairlearn.reductions as fr
+    from fairlearn.postprocessing import ThresholdOptimizer
+
+    table, y, scores = case["table"], case["y"], case["scores"]
+    n, ncol = len(table), len(table[0])
+    maps = []
+    for j in range(ncol):
+        levels = sorted({row[j] for row in table})
+        perm = case["perms"][j]
+        maps.append({v: "c%d_%d" % (j, perm[i % len(perm)] if len(perm) >= len(levels) else i) for i, v in enumerate(levels)})
+        if len(set(maps[-1].values())) != len(levels):
+            maps[-1] = {v: "c%d_%d" % (j, i) for i, v in enumerate(levels)}
+    renamed = [[maps[j][row[j]] for j in range(ncol)] for row in table]
+    tuples = {tuple(r) for r in table}
+
+    def wrap(t):
+        if case["kind"] == "dataframe":
+            return pd.DataFrame(t, columns=["s%d" % j for j in range(ncol)], index=np.arange(n)[::-1])
+        if case["kind"] == "ndarray":
+            return np.array(t, dtype=object)
+        return [list(r) for r in t]
+
+    X = np.asarray(scores, dtype=float).reshape(-1, 1)
+    h = np.asarray(case["h"], dtype=float)
+    out = []
+    for t in (table, renamed):
+        m = fr.DemographicParity()
+        m.load_data(X, np.asarray(y), sensitive_features=wrap(t))
+        g = m.gamma(lambda X_: h)
+        plus = sorted(round(float(v), 12) for k, v in zip(g.index.tolist(), g.values) if k[0] == "+")
+        to = ThresholdOptimizer(estimator=ScoreColumn(), constraints="demographic_parity", prefit=True, predict_method="predict",
+                                grid_size=case["grid_size"])
+        to.fit(X, np.asarray(y), sensitive_features=wrap(t))
+        p = np.asarray(to._pmf_predict(X, sensitive_features=wrap(t)))[:, 1]
+        out.append((plus, p, len(to.interpolated_thresholder_.interpolation_dict)))
+    (g0, p0, k0), (g1, p1, k1) = out
+    if len(g0) != len(tuples) or k0 != len(tuples):
+        raise PropertyViolation(f"{len(tuples)} distinct tuples give {len(g0)} groups in DemographicParity.gamma and {k0} ThresholdOptimizer rules; tuples {sorted(tuples)}")
+    if len(g1) != len(g0) or not np.allclose(g0, g1, rtol=0, atol=1e-10):
+        raise PropertyViolation(f"renaming the labels of every column by a bijection changes gamma: {g0} -> {g1}; tuples {sorted(tuples)}")
+    # the fitted rules may differ between the two labellings where the objective has ties (groups are visited in label
+    # order); what a renaming cannot change is the number of rules and the attained objective
+    ya = np.asarray(y)
+    acc0, acc1 = float(np.where(ya == 1, p0, 1 - p0).mean()), float(np.where(ya == 1, p1, 1 - p1).mean())
+    if k1 != k0 or abs(acc0 - acc1) > 1e-9:
+        raise PropertyViolation(f"renaming the labels of every column by a bijection changes the fitted ThresholdOptimizer: {k0} -> {k1} rules, expected accuracy {acc0!r} -> {acc1!r}")
+    tags = ["nt"] if len(tuples) >= 2 else []
+    if max(len(c) for r in table for c in r) >= 8:
+        tags.append("long_cells")
+    return tags
+
+
+@st.composite
+def _multi_col_cases(draw):
+    ncol = draw(st.sampled_from([2, 2, 3]))
+    cell = st.one_of(st.sampled_from(["a", "b", ",", "\\", "a,b", ",,", "\\,"]),
+                     st.text(alphabet=["a", ",", "\\", "b", " "], min_size=4, max_size=12))
+    k = draw(st.integers(2, 5))
+    tuples = []
+    base = [draw(cell) for _ in range(ncol)]
+    tuples.append(tuple(base))
+    while len(tuples) < k:
+        # tuples that share a long prefix with an earlier one and differ only near the end of a cell
+        t = list(draw(st.sampled_from(tuples)))
+        j = draw(st.integers(0, ncol - 1))
+        t[j] = draw(st.sampled_from([t[j] + "x", t[j][:-1] + "y" if t[j] else "y", draw(cell)]))
+        if tuple(t) not in tuples:
+            tuples.append(tuple(t))
+        else:
+            k -= 1
+    rows, y = [], []
+    for t in tuples:
+        m = draw(st.integers(2, 4))
+        rows += [list(t)] * m
+        y += [0, 1] + [draw(st.integers(0, 1)) for _ in range(m - 2)]
+    n = len(rows)
+    perm = draw(st.permutations(range(n)))
+    return {"table": [rows[i] for i in perm], "y": [y[i] for i in perm],
+            "scores": draw(st.lists(st.sampled_from([0.1, 0.3, 0.5, 0.7, 0.9]), min_size=n, max_size=n)),
+            "h": draw(st.lists(st.sampled_from([0.0, 1.0, 0.25]), min_size=n, max_size=n)),
+            "perms": [list(draw(st.permutations(range(6)))) for _ in range(ncol)],
+            "kind": draw(st.sampled_from(["dataframe", "ndarray", "lists"])), "grid_size": draw(st.sampled_from([10, 1000]))}
+
+
 # ---- estimators -------------------------------------------------------------------------------------------------
 
 
@@ -659,4 +747,6 @@ SUBS = [
         floors={"nt": 0.188, "y_dataframe": 0.03}),
     Sub("reductions", check_reduction, strategy=_red_cases, quick=60, thorough=2000, shards=16, shrink_quick=False,
         floors={"nt": 0.1}),
+    Sub("multi_column_renaming", check_multi_column_renaming, strategy=_multi_col_cases, quick=160, thorough=4000, shards=16,
+        floors={"nt": 0.5, "long_cells": 0.3}),
 ]
